@@ -128,7 +128,7 @@ impl NodeState {
 //@sub /let invoices = invoices_v\s*\.into_iter\(\)\s*\.map\(\|\(k, v\)\| \(PaymentHash\(k\.try_into\(\)\.vx_expect\(\)\), v\.into\(\)\)\)\s*\.collect\(\);/ => let invoices = vx_collect_invoices(invoices_v);
 //@sub /let issued_invoices = issued_invoices_v\s*\.into_iter\(\)\s*\.map\(\|\(k, v\)\| \(PaymentHash\(k\.try_into\(\)\.vx_expect\(\)\), v\.into\(\)\)\)\s*\.collect\(\);/ => let issued_invoices = vx_collect_invoices(issued_invoices_v);
 //@sub /(?s)let payments = preimages\s*\.into_iter\(\)\s*\.map\(\|preimage\| \{.*?\}\)\s*\.collect\(\);/ => let payments = vx_collect_payments(preimages);
-//@sub /allowlist: allowlist\.into_iter\(\)\.collect\(\)/ => allowlist: vx_collect_allowlist(allowlist)
+//@sub /allowlist(:| =) allowlist\.into_iter\(\)\.collect\(\)/ => allowlist\1 vx_collect_allowlist(allowlist)
 //@end
 
 //@fn vls-core/src/node.rs :: impl NodeState :: with_log_prefix props=C12,C11,C15
